@@ -633,3 +633,57 @@ Proof.
     as (h & fin & H1 & H2 & H3 & _ & _).
   exists h, fin. repeat split; auto. exact (plan_nil_disjoint _ _ _ H2).
 Qed.
+
+(* ---- largeTotalIndexSizeFilter.plan terminates ---------------------------------- *)
+
+Lemma idx_scan_in lim p : forall total mx big b, idx_scan lim total mx big p = Some b ->
+  b = big \/ exists m, In m p /\ bid m = b.
+Proof.
+  induction p as [|m r IH]; intros total mx big b; simpl; [discriminate|].
+  destruct (total + isize m >=? lim).
+  - intros H. inversion H; subst. destruct (mx <? isize m); [right; exists m; auto | left; auto].
+  - intros H. apply IH in H. destruct H as [->|(m' & Hm' & E)].
+    + destruct (mx <? isize m); [right; exists m; auto | left; auto].
+    + right. exists m'. auto.
+Qed.
+
+Lemma filter_length_lt {A} (f g : A -> bool) l m :
+  (forall x, f x = true -> g x = true) -> In m l -> g m = true -> f m = false ->
+  (length (filter f l) < length (filter g l))%nat.
+Proof.
+  intros Hfg. induction l as [|a l IH]; simpl; intros Hin Hg Hf; [contradiction|].
+  assert (Hle : (length (filter f l) <= length (filter g l))%nat).
+  { clear IH Hin. induction l as [|c l IHl]; simpl; auto.
+    destruct (f c) eqn:Fc; [rewrite (Hfg c Fc); simpl; lia | destruct (g c); simpl; lia]. }
+  destruct Hin as [->|Hin].
+  - rewrite Hg, Hf. simpl. lia.
+  - specialize (IH Hin Hg Hf). destruct (f a) eqn:Fa; [rewrite (Hfg a Fa); simpl; lia | destruct (g a); simpl; lia].
+Qed.
+
+Lemma idx_plan_terminates ranges lim l : forall n marks,
+  (length (filter (unmarked marks) l) < n)%nat ->
+  exists r, idx_plan n ranges marks lim l = Some r.
+Proof.
+  induction n as [|n IH]; intros marks Hlt; [lia|]. cbn [idx_plan].
+  destruct (plan ranges marks l) as [p|] eqn:Hp; [|eauto].
+  destruct (idx_scan lim 0 int64_min (bid (hd dummy p)) p) as [b|] eqn:Hs; [|eauto].
+  assert (Hm : exists m, In m p /\ bid m = b).
+  { destruct (idx_scan_in _ _ _ _ _ _ Hs) as [->|H]; auto.
+    destruct p as [|m0 p']; [simpl in Hs; discriminate|]. exists m0. simpl. auto. }
+  destruct Hm as (m & Hmp & <-).
+  assert (Hml : In m l) by (eapply sublist_In; [eapply plan_sublist; eauto | exact Hmp]).
+  assert (Hmu : unmarked marks m = true).
+  { pose proof (plan_unmarked _ _ _ _ Hp) as Hu. unfold Unmarked in Hu. rewrite Forall_forall in Hu. auto. }
+  assert (Hdec : (length (filter (unmarked (bid m :: marks)) l) < length (filter (unmarked marks) l))%nat).
+  { apply (filter_length_lt _ _ l m); auto.
+    - intros x. unfold unmarked, marked. simpl. destruct (bid x =? bid m); simpl; [discriminate|auto].
+    - unfold unmarked, marked. simpl. now rewrite Z.eqb_refl. }
+  destruct (IH (bid m :: marks)) as ([res ms] & ->); [lia|]. eauto.
+Qed.
+
+Lemma index_filter_terminates ranges marks lim l :
+  exists res ms, idx_plan (S (length l)) ranges marks lim l = Some (res, ms).
+Proof.
+  destruct (idx_plan_terminates ranges lim l (S (length l)) marks) as ([res ms] & H); eauto.
+  pose proof (sublist_length _ _ (sublist_filter (unmarked marks) l)). lia.
+Qed.
